@@ -1,6 +1,7 @@
 import FluteModel.Lemmas.SessionSeg
 import FluteModel.Lemmas.SessionCodec
 import FluteModel.Lemmas.SessionPart
+import FluteModel.Lemmas.SessionFits
 /-
   C01 — clean channel: every accepted object arrives exactly once (once per transfer when
   receive-once is off), nothing is reported as error; an object the wire format cannot carry is
@@ -16,8 +17,9 @@ open Flute Flute.Session Flute.Lemmas.Session
 /-- **C01, delivery clause (receiver side, all configurations).**
     For EVERY decoder satisfying the contract, every receiver configuration whose resource limits
     do not bind (`Fits`), every non-empty object whose cache directive is not no-cache (finding D28),
-    and every clean reception `fdt :: seg₁ ++ … ++ seg_m ++ tail` where
-      * the object is announced first (`Ev.fdt true`: C11, announce before send),
+    and every clean reception `pre ++ fdt :: seg₁ ++ … ++ seg_m ++ tail` where
+      * `pre` holds no packet of the object (FDT instances of earlier objects, listing it or not), then the
+        object is announced (`Ev.fdt true`: C11, announce before send),
       * `seg_t` carries the packets of the t-th transfer in the sender's order - any listing `T` that
         is `TransferOK`: genuine packets, (SBN 0, ESI 0) first and only first, decodable symbols of every
         block, close-object flag on the last packet only - interleaved with any number of completions
@@ -30,19 +32,19 @@ open Flute Flute.Session Flute.Lemmas.Session
     packets, which the object does not see (`C02.events_packets`). -/
 theorem clean_channel_exact_once (c : Codec) (rc : RxCfg) (o : ObjCfg)
     (hN : o.ks.isEmpty = false) (hfit : Fits rc o) (hnc : o.noCache = false)
-    (segs : List (List Ev)) (tail : List Ev)
+    (pre : List Ev) (segs : List (List Ev)) (tail : List Ev)
+    (hpre : pktSyms pre = [])
     (hsegs : ∀ seg, seg ∈ segs → TransferOK c o (pktSyms seg) ∧ ∀ l, Ev.fdt l ∈ seg → l = true)
     (htail : pktSyms tail = []) :
-    let st := runObj c.canDecode rc o {} (Ev.fdt true :: (segs.flatten ++ tail))
+    let st := runObj c.canDecode rc o {} (pre ++ Ev.fdt true :: (segs.flatten ++ tail))
     st.completes = (if rc.receiveOnce then min 1 segs.length else segs.length) ∧
     st.opens = st.completes ∧ st.errors = 0 ∧ st.interrupts = 0 := by
   intro st
-  have h0 : Idle 0 (stepObj c.canDecode rc o {} (.fdt true)) := by
-    simp only [stepObj, fdtEv, ageStep]
-    exact ⟨rfl, rfl, rfl, rfl, rfl, rfl, rfl⟩
+  have h0 := idle_after_announce c rc o pre hpre
   have h1 := clean_run c rc o hN hfit hnc segs 0 _ h0 hsegs
   have h2 := tail_counters c rc o tail _ h1.obj htail
-  have e : st = runObj c.canDecode rc o (runObj c.canDecode rc o (stepObj c.canDecode rc o {} (.fdt true)) segs.flatten) tail := by
+  have e : st = runObj c.canDecode rc o (runObj c.canDecode rc o
+      (stepObj c.canDecode rc o (runObj c.canDecode rc o {} pre) (.fdt true)) segs.flatten) tail := by
     simp only [st, runObj, runObj_append]
   have hx : expect rc.receiveOnce 0 segs.length = (if rc.receiveOnce then min 1 segs.length else segs.length) := by
     unfold expect; split <;> simp
@@ -106,20 +108,6 @@ theorem scheduler_only_interleaves (o : ObjCfg) (hto : o.toi ≠ 0) (hm : 1 ≤ 
 
 /-! ### the refusal clause -/
 
-theorem divCeil_le (a b m : Nat) (hb : 0 < b) (h : a ≤ m * b) : divCeil a b ≤ m := by
-  unfold divCeil
-  have hq : a / b ≤ m := Nat.div_le_of_le_mul (by rw [Nat.mul_comm]; exact h)
-  split
-  · exact hq
-  · rename_i hr
-    have hdm := Nat.div_add_mod a b
-    by_cases hlt : a / b < m
-    · omega
-    · have heq : a / b = m := by omega
-      rw [heq] at hdm
-      have : b * m = m * b := Nat.mul_comm _ _
-      omega
-
 /-- **C01, refusal clause.**  `add_object` (`FileDesc::new`) refuses every object whose transfer length
     exceeds the scheme's maximum; and an object it accepts (under that test) is representable on the
     wire: its transfer length fits the FTI field (48 bits, 40 for RaptorQ) and the RFC 5052 partition
@@ -143,6 +131,14 @@ theorem too_large_refused (s : Scheme) (e b p tl aLarge : Nat) (he : 0 < e) (hb 
       apply divCeil_le _ _ _ he
       calc tl ≤ e * b * maxSbn s := hle'
         _ = maxSbn s * b * e := by rw [Nat.mul_comm (e * b), Nat.mul_comm e b, Nat.mul_assoc]
+
+/-- the resource hypothesis `Fits` of the theorems follows from the configuration: the object has at most
+    `2 * MAX_PREALLOCATED_BLOCKS` (= 4096) blocks and the bytes the receiver accounts for all its blocks are
+    within `object_max_cache_size` (default 10 MiB).  (F22: a receiver whose cache is smaller than the
+    sender's interleave window times the block size refuses the object - C17 demands that limit.) -/
+theorem cache_holds_object (rc : RxCfg) (o : ObjCfg) (h1 : o.ks.size ≤ rc.maxLook)
+    (h2 : totalBytes o.blen o.blen.size ≤ rc.maxSize) : Fits rc o :=
+  fits_of_total rc o h1 h2
 
 /-! ### phase 2: the block structure is the RFC 5052 partition (C07) of an accepted object -/
 
@@ -183,6 +179,14 @@ theorem accepted_blocks_encodable (s : Scheme) (e b p tl aLarge k : Nat)
       decide_eq_false_iff_not] at h2
     simp only [blockFails, Bool.or_eq_false_iff, beq_eq_false_iff_ne, decide_eq_false_iff_not]
     omega
+
+/-- the hypotheses `emitTransfer … = some …` of the session-level theorems are always satisfiable: the
+    model's block encoder produces a listing for every encodable block structure (its loop never runs out
+    of fuel; the driver's `hang` outcome does not occur) -/
+theorem transfer_listing_exists (s : SessCfg) (o : ObjCfg) (closable : Bool) (hw : 1 ≤ s.w) (hN : o.ks.isEmpty = false)
+    (hblocks : ∀ (b k : Nat), o.ks[b]? = some k → 1 ≤ k ∧ blockFails o.scheme k o.p = false) :
+    ∃ T, emitTransfer (objEnc s o closable) = some T :=
+  emit_terminates _ (encOK_obj s o closable hw hN hblocks)
 
 /-! ### findings: the hypotheses that cannot be dropped -/
 
